@@ -584,7 +584,28 @@ func (vfs *OrefaFS) OpenFile(name string, flag int, perm fs.FileMode) (avfs.File
 	child, childOk := vfs.nodes[absPath]
 	vfs.mu.RUnlock()
 
-	if !childOk {
+	created := false
+
+	if !childOk && om&avfs.OpenCreate != 0 && om&avfs.OpenWrite != 0 {
+		// The file and its directory are looked up again once the write lock is held :
+		// the file is created only if it is still missing and its directory still there,
+		// otherwise it is opened as an existing file.
+		vfs.mu.Lock()
+
+		parent, parentOk = vfs.nodes[dirName]
+		child, childOk = vfs.nodes[absPath]
+
+		if !childOk && parentOk && parent.mode.IsDir() {
+			child = vfs.createFile(parent, absPath, fileName, perm)
+			created = true
+		}
+
+		vfs.mu.Unlock()
+	}
+
+	switch {
+	case created:
+	case !childOk:
 		if !parentOk {
 			return (*OrefaFile)(nil), &fs.PathError{Op: op, Path: name, Err: vfs.err.NoSuchDir}
 		}
@@ -597,39 +618,24 @@ func (vfs *OrefaFS) OpenFile(name string, flag int, perm fs.FileMode) (avfs.File
 			return (*OrefaFile)(nil), &fs.PathError{Op: op, Path: name, Err: vfs.err.NoSuchFile}
 		}
 
-		if om&avfs.OpenWrite == 0 {
-			return (*OrefaFile)(nil), &fs.PathError{Op: op, Path: name, Err: vfs.err.PermDenied}
+		return (*OrefaFile)(nil), &fs.PathError{Op: op, Path: name, Err: vfs.err.PermDenied}
+	case child.mode.IsDir():
+		if om&avfs.OpenWrite != 0 {
+			return (*OrefaFile)(nil), &fs.PathError{Op: op, Path: name, Err: vfs.err.IsADirectory}
 		}
-
-		vfs.mu.Lock()
-		defer vfs.mu.Unlock()
-
-		// test for race conditions when opening file in exclusive mode.
-		_, childOk = vfs.nodes[absPath]
-		if childOk && om&avfs.OpenCreateExcl != 0 {
+	default:
+		if om&avfs.OpenCreateExcl != 0 {
 			return (*OrefaFile)(nil), &fs.PathError{Op: op, Path: name, Err: vfs.err.FileExists}
 		}
 
-		child = vfs.createFile(parent, absPath, fileName, perm)
-	} else {
-		if child.mode.IsDir() {
-			if om&avfs.OpenWrite != 0 {
-				return (*OrefaFile)(nil), &fs.PathError{Op: op, Path: name, Err: vfs.err.IsADirectory}
-			}
-		} else {
-			if om&avfs.OpenCreateExcl != 0 {
-				return (*OrefaFile)(nil), &fs.PathError{Op: op, Path: name, Err: vfs.err.FileExists}
-			}
+		if om&avfs.OpenTruncate != 0 {
+			child.mu.Lock()
+			child.truncate(0)
+			child.mu.Unlock()
+		}
 
-			if om&avfs.OpenTruncate != 0 {
-				child.mu.Lock()
-				child.truncate(0)
-				child.mu.Unlock()
-			}
-
-			if om&avfs.OpenAppend != 0 {
-				at = child.Size()
-			}
+		if om&avfs.OpenAppend != 0 {
+			at = child.Size()
 		}
 	}
 
